@@ -327,6 +327,21 @@ func (pr *printer) exprLines(e Expr, ind, prefix, site string) {
 	pr.emit(ind, prefix+pr.inline(e, 0), site)
 }
 
+// binRank: the published operator table (|> is handled apart)
+func binRank(op string) int {
+	switch op {
+	case "&&", "||", "<", ">", "<=", ">=":
+		return 2
+	case "=", "<>":
+		return 3
+	case "+", "-":
+		return 4
+	case "*", "/":
+		return 5
+	}
+	return 0
+}
+
 func flattenPipe(p *Pipe) []Expr {
 	var out []Expr
 	var rec func(e Expr)
@@ -442,7 +457,22 @@ func (pr *printer) inl(e Expr) (string, int) {
 	case *Var:
 		return x.Name, 0
 	case *BinOp:
-		return pr.inline(x.L, 1) + " " + x.Op + " " + pr.inline(x.R, 1), 2
+		// operands that are themselves operator applications are parenthesised, except that half of
+		// those the fixed table groups the same way without parentheses (left operand of equal or
+		// tighter rank, right operand of strictly tighter rank) are written bare - chosen by the
+		// text, so every layout of one program agrees
+		l, r := pr.inline(x.L, 1), pr.inline(x.R, 1)
+		if lb, ok := x.L.(*BinOp); ok && binRank(lb.Op) >= binRank(x.Op) {
+			if bare, _ := pr.inl(x.L); len(bare)%2 == 1 {
+				l = bare
+			}
+		}
+		if rb, ok := x.R.(*BinOp); ok && binRank(rb.Op) > binRank(x.Op) {
+			if bare, _ := pr.inl(x.R); len(bare)%2 == 1 {
+				r = bare
+			}
+		}
+		return l + " " + x.Op + " " + r, 2
 	case *Not:
 		return "not " + pr.inline(x.E, 3), 2
 	case *If:
